@@ -17,7 +17,16 @@ func main() {
 	if os.Getenv("VERIF_SCRATCH") == "" {
 		os.Setenv("VERIF_SCRATCH", "/tmp/verif-chunks-work")
 	}
+	if os.Getenv("CHUNKS_EXECUTOR") != "" {
+		switch os.Args[1] {
+		case "C10":
+			executorC10()
+		}
+		return
+	}
 	switch os.Args[1] {
+	case "C10":
+		mainC10()
 	case "C12":
 		mainC12()
 	default:
